@@ -1,16 +1,29 @@
+\* quick exhaustive check (one build-id, two projects, two operations, every operation kind, every initial store):
+\* the repaired protocol (Weak = {}) satisfies all of P.  checks/c15_sharedstore.py derives the config for the
+\* protocol of the code as it is by replacing the Weak line (and dropping the invariants that state a weakness).
 SPECIFICATION Spec
-CONSTANTS Procs = {"A", "B"}  BIds = {"b1", "b2"}  MaxOps = 2  MaxTotal = 3
+CONSTANTS Procs = {"A", "B"}  BIds = {"b1"}  MaxOps = 2  MaxTotal = 2
 CONSTANT OpKinds = {"use", "inst", "instmv", "instbad", "gc", "gcA", "gcU"}
-CONSTANT Quotas = {1, 2, 99}
+CONSTANT Quotas = {0, 1, 99}
 CONSTANT InitKinds = {"nodir", "emptydir", "pop"}
-CONSTANT InitPerm = FALSE  MaxUnlink = 1  Gen = FALSE
+CONSTANT InitPerm = TRUE  MaxUnlink = 1  Gen = FALSE
 CONSTANT Weak = {}
 VIEW view
 INVARIANT TypeOK
 INVARIANT VisibleIsComplete
 INVARIANT HashMatches
-INVARIANT NotCollectedWhileUsed
-INVARIANT NoSpuriousFailure
+INVARIANT NoDanglingUse
+INVARIANT NoDanglingInst
+INVARIANT NoDanglingLost
+INVARIANT NoDanglingLinked
+INVARIANT NoDanglingUnregistered
+INVARIANT NoDanglingDuring
+INVARIANT NoDanglingLinkToCollected
+INVARIANT NoGcFailEmptyStore
+INVARIANT NoJsonFailureGc
+INVARIANT NoJsonFailureInstall
+INVARIANT NoJsonFailureUse
+INVARIANT NoInspectFailure
 INVARIANT SizeAccounting
 INVARIANT AutoCleanPolicy
 INVARIANT LocksFreeAtQuiescence
